@@ -2,7 +2,7 @@
    ONLY statements. *)
 From PM.theories Require Import Base Expr Struct FrBCode Crc FrBCommon FrRtu FrBin FrSpecB.
 From PM.Generated Require Import GenFramerB.
-From PM.proofs Require Import Crc_proofs FrB_rtu_proofs.
+From PM.proofs Require Import Crc_proofs Crc_detect_proofs FrB_rtu_proofs.
 Open Scope list_scope.
 Open Scope N_scope.
 
@@ -33,3 +33,68 @@ Example C07_nonvacuous :
   let cfg := {| cf_dec := fun _ => DMsg; cf_rules := server_decoder; cf_units := [1%Z]; cf_single := false |} in
   snd (fst (rtu_recv cfg rtu_init (spec_adu_rtu 1 [3; 0; 1; 0; 2]))) = [([3; 0; 1; 0; 2], 1%Z)] /\ known_rules (cf_rules cfg).
 Proof. split; [vm_compute; reflexivity | left; reflexivity]. Qed.
+
+(* ---- DETECTION POWER of CRC-16/Modbus itself (spec side, independent of the framers).
+   [crc_ok frame]: the last two bytes are the bitwise CRC of the rest, low byte first;
+   [xor_bytes frame e]: the frame with error pattern e; [weight e]: number of flipped bits. *)
+
+(* xor-linearity of the register for equal lengths *)
+Theorem C07_crc_linear : forall a e s, length e = length a ->
+  crc_reg s (xor_bytes a e) = N.lxor (crc_reg s a) (crc_reg 0 e).
+Proof. exact crc_linear. Qed.
+Print Assumptions C07_crc_linear.
+
+(* a corrupted frame passes the check exactly when the error pattern alone has syndrome 0 *)
+Theorem C07_crc_syndrome : forall frame e, wfb frame = true -> wfb e = true ->
+  length e = length frame -> crc_ok frame = true ->
+  (crc_ok (xor_bytes frame e) = true <-> crc_reg 0 e = 0).
+Proof. exact crc_detect_iff. Qed.
+Print Assumptions C07_crc_syndrome.
+
+(* every single-bit error, any frame length *)
+Theorem C07_crc_single : forall frame e, wfb frame = true -> wfb e = true ->
+  length e = length frame -> crc_ok frame = true -> weight e = 1%nat ->
+  crc_ok (xor_bytes frame e) = false.
+Proof. exact crc_single_detected. Qed.
+Print Assumptions C07_crc_single.
+
+(* every error with an odd number of flipped bits (1, 3, 5, ...), any frame length *)
+Theorem C07_crc_odd : forall frame e, wfb frame = true -> wfb e = true ->
+  length e = length frame -> crc_ok frame = true -> Nat.odd (weight e) = true ->
+  crc_ok (xor_bytes frame e) = false.
+Proof. exact crc_odd_detected. Qed.
+Print Assumptions C07_crc_odd.
+
+(* every double-bit error in frames shorter than 32767 bits (an RTU frame has at most 2048) *)
+Theorem C07_crc_double : forall frame e, wfb frame = true -> wfb e = true ->
+  length e = length frame -> crc_ok frame = true -> weight e = 2%nat ->
+  (8 * N.of_nat (length frame) < 32767) -> crc_ok (xor_bytes frame e) = false.
+Proof. exact crc_double_detected. Qed.
+Print Assumptions C07_crc_double.
+
+(* ---- COMPOSITION (partial, the honest boundary): bytes that fail the CRC check as a whole,
+   handed to an empty receiver in any state of its header, never produce a delivery whose
+   frame has that same extent.  On RTU the extent is computed from the (possibly corrupted)
+   function code and byte count; when a flip changes the computed extent the checksum is
+   evaluated over a different span and only C07_gate_rtu applies. *)
+Theorem C07_no_delivery_rtu_partial : forall cfg st frame' st' ds x,
+  known_rules (cf_rules cfg) -> r_buf st = [] -> wfb frame' = true -> crc_ok frame' = false ->
+  rtu_recv cfg st frame' = (st', ds, x) ->
+  forall pdu uid, In (pdu, uid) ds -> forall u, uid = Z.of_N u -> length (spec_adu_rtu u pdu) <> length frame'.
+Proof. exact rtu_no_delivery_same_extent. Qed.
+Print Assumptions C07_no_delivery_rtu_partial.
+
+(* every error burst confined to at most 16 consecutive bits (transmission order), any length *)
+Theorem C07_crc_burst16 : forall frame e, wfb frame = true -> wfb e = true ->
+  length e = length frame -> crc_ok frame = true -> (0 < burst_len e <= 16)%nat ->
+  crc_ok (xor_bytes frame e) = false.
+Proof. exact crc_burst16_detected. Qed.
+Print Assumptions C07_crc_burst16.
+
+(* the detection theorems are not vacuous: a valid frame and error patterns of each class *)
+Example C07_detection_nonvacuous :
+  let frame := with_crc [1; 3; 0; 1; 0; 2] in
+  crc_ok frame = true /\ weight [0; 0; 4; 0; 0; 0; 0; 0] = 1%nat /\
+  weight [0; 0; 4; 0; 0; 128; 0; 0] = 2%nat /\ burst_len [0; 0; 128; 255; 1; 0; 0; 0] = 10%nat /\
+  crc_ok (xor_bytes frame [0; 0; 4; 0; 0; 128; 0; 0]) = false.
+Proof. cbv zeta. repeat split; vm_compute; reflexivity. Qed.
